@@ -8,6 +8,7 @@ import (
 	"verifharness/fw"
 	_ "verifharness/props/c0102"
 	_ "verifharness/props/c0304"
+	_ "verifharness/props/c05"
 	_ "verifharness/props/c07"
 	_ "verifharness/props/c08"
 	_ "verifharness/props/c09"
